@@ -149,6 +149,27 @@ def search(ctx):
                 seen.add((no, ch))
                 fails.append({'sgno': no, 'cell_choice': ch, 'name': s.name, 'position': fpos, 'expected': exp, 'got': got, 'what': why,
                               'replay': 'structure.multiplicity(%r, sgno=%d, cell_choice=%r): %s' % (arg(), no, ch, why)})
+    # the eighths and sixths sub-grids in full for the diamond-glide groups and two more face-centred cubic groups (the special positions of Fd-3, Fd-3m, Fd-3c lie there;
+    # 192 operations, many coinciding images): every point, not a sample
+    from xfab import sg as _sg
+    sub = [(a, b, c) for g in ([F(1, 8), F(3, 8), F(5, 8), F(7, 8)], [F(1, 6), F(1, 3), F(2, 3), F(5, 6)]) for a in g for b in g for c in g]
+    big = [203, 227, 228] + rng.sample([196, 202, 209, 210, 216, 219, 225, 226], 2 if ctx.quick else 8)
+    for no in big:
+        s_ = _sg.sg(sgno=no)
+        ops = ops_exact(s_)
+        for pos in (sub if (no in (203, 227, 228) or not ctx.quick) else rng.sample(sub, 24)):
+            exp = orbit_size_exact(ops, list(pos))
+            fpos = [float(x) for x in pos]
+            ctx.count(('sub', no, tuple(fpos)), hist='search:eighths/sixths sub-grid, F-centred cubic')
+            try:
+                got = structure.multiplicity(np.array(fpos), sgno=no)
+                why = None if got == exp else 'multiplicity = %r, orbit has %d points' % (got, exp)
+            except Exception as e:
+                why = 'raised %s: %s' % (type(e).__name__, e)
+            if why and (no, 'sub') not in seen:
+                seen.add((no, 'sub'))
+                fails.append({'sgno': no, 'cell_choice': 'standard', 'name': s_.name, 'position': fpos, 'expected': exp, 'what': why,
+                              'replay': 'structure.multiplicity(%r, sgno=%d): %s' % (fpos, no, why)})
         # state must not leak between calls: both settings of an R group in sequence
     for no in (146, 148, 155, 160, 161, 166, 167):
         try:
